@@ -22,7 +22,7 @@ ID = "C09"
 COQ_PROPS = "Props/C09.v"
 THEOREMS = ["C09_parse_print", "C09_print_stable", "C09_print_int_roundtrip", "C09_print_injective",
             "C09_to_json_defined_iff_valid", "C09_from_to", "C09_from_runtime_repr_iff_valid",
-            "C09_str_is_json", "C09_constructors_agree", "C09_file_roundtrip_partial",
+            "C09_str_is_json", "C09_utf8_roundtrip", "C09_mangle_is_ascii_json", "C09_constructors_agree", "C09_file_roundtrip_partial",
             "C09_save_load_twice_partial", "C09_history_step_partial", "C09_history_cache_irrelevant_partial"]
 ALLOWED_AXIOMS = []
 RULE = ("codec: random JSON values (ints up to ~1200 digits, floats drawn from random bit patterns, subnormals, "
@@ -1202,6 +1202,7 @@ class Hist:
                 if pt['save'] == 'ok':
                     exts = [c for code, c in file_ext_bytes(p) if code == dcm_meta_ecode]
                     pt['n_ext'] = len(exts)
+                    pt['file_bytes'] = exts[0].decode('latin-1') if exts else None     # byte values as code points
                     try:
                         pt['file'] = exts[0].decode('utf-8') if exts else None
                     except UnicodeDecodeError:
@@ -1256,7 +1257,7 @@ class Hist:
             tj = pt['to_json']
             tjs = ('Ok %s' % text(tj['ok'])) if 'ok' in tj else ('Err %s' % cerr(tj['err']))
             st = text(pt['str'].get('ok'))
-            fl = '(Some %s)' % text(pt.get('file')) if pt.get('save') == 'ok' else 'None'
+            fl = '(Some %s)' % text(pt.get('file_bytes')) if pt.get('save') == 'ok' else 'None'
             rl = pt.get('reload') or {'err': 'ECrash'}
             ld = ('Ok %s' % val(rl['content'])) if 'content' in rl else ('Err %s' % cerr(rl.get('err', 'ECrash')))
             pts.append('{| Corr.sp_content := %s; Corr.sp_valid := %s; Corr.sp_to_json := %s; Corr.sp_str := %s; '
